@@ -415,6 +415,25 @@ theorem filter_core (s : State) (ns name : String) (nodes : List String) (ch : C
         have q := filterNodes_quiet set nodes [] (getSubnet s pod ch).1
         exact key.of_quiet q.1 q.2
 
+theorem preempt_core (s : State) (ns name : String) (nodes : List String) (ch : Choice) (h : Core s) :
+    Core (Plugin.preempt s ns name nodes ch).1 := by
+  unfold Plugin.preempt
+  split
+  · exact h
+  · rename_i pod hpod
+    split
+    · exact h
+    · have key : Core (getSubnet s pod ch).1 := by
+        rcases getSubnet_state s pod ch with e | ⟨resv, n, e⟩
+        · rw [e]; exact h
+        · rw [e]; exact core_allocateDuringFilter s _ resv n _ ch.pick rfl h
+      split
+      · exact h
+      · exact key
+      · rename_i set _
+        have q := filterNodes_quiet set nodes [] (getSubnet s pod ch).1
+        exact key.of_quiet q.1 q.2
+
 /-! ### the pod-IP sync pass -/
 
 theorem allocateSpecific_fields (s : State) (key : Key) (ip : IP) (a : Attr) :
